@@ -8,7 +8,7 @@ from ..world import Session, sync_streams
 
 ID = "C14"
 LEVEL = "exploration"
-QUICK_RUNS = 800
+QUICK_RUNS = 3200
 RULE = ("Each run: ThompsonSampling with a drawn binarizer (arm-dependent thresholds, none idempotent on {0,1}) alone "
         "or under a drawn neighbourhood policy; history of fit / partial_fit / queries / arm changes including "
         "add_arm(arm, new_binarizer); a replica WITHOUT binarizer receives binarizer(decision, reward) for every "
